@@ -162,3 +162,246 @@ pub fn run(seed: u64, n: u64) -> SetsResult {
     }
     r
 }
+
+/* ---------- concurrent programs through the set facades (C01) ---------- */
+
+use crate::hooks::{self, Mode, Policy, Sched, Verdict};
+use std::panic::{catch_unwind, AssertUnwindSafe};
+use std::sync::Mutex;
+
+#[derive(Clone, Debug, PartialEq)]
+pub enum SOp {
+    Insert(u32),
+    Remove(u32),
+    Take(u32),
+    Contains(u32),
+    Get(u32),
+}
+impl SOp {
+    fn key(&self) -> u32 {
+        match self {
+            SOp::Insert(k) | SOp::Remove(k) | SOp::Take(k) | SOp::Contains(k) | SOp::Get(k) => *k,
+        }
+    }
+}
+#[derive(Clone, Debug)]
+struct SCall {
+    tid: usize,
+    op: SOp,
+    inv: u64,
+    res: u64,
+    /// what the call reported: inserted / removed / found
+    out: bool,
+}
+
+pub struct SetConcResult {
+    pub runs: u64,
+    pub steps: u64,
+    pub calls: u64,
+    pub overlapping_same_key_inserts: u64,
+    pub failures: Vec<String>,
+    pub samples: Vec<String>,
+}
+
+/// is there an order of the calls on one element - respecting real time - in which every call
+/// reports what a sequential set would?
+fn set_linearizable(initial: bool, calls: &[SCall], fin: bool) -> bool {
+    fn go(state: bool, done: u32, calls: &[SCall], fin: bool) -> bool {
+        if done.count_ones() as usize == calls.len() {
+            return state == fin;
+        }
+        for (i, c) in calls.iter().enumerate() {
+            if done & (1 << i) != 0 {
+                continue;
+            }
+            // c may come next unless a call not yet placed returned before c was invoked
+            if calls.iter().enumerate().any(|(j, d)| j != i && done & (1 << j) == 0 && d.res < c.inv) {
+                continue;
+            }
+            let (want, next) = match c.op {
+                SOp::Insert(_) => (!state, true),
+                SOp::Remove(_) | SOp::Take(_) => (state, false),
+                SOp::Contains(_) | SOp::Get(_) => (state, state),
+            };
+            if c.out == want && go(next, done | (1 << i), calls, fin) {
+                return true;
+            }
+        }
+        false
+    }
+    go(initial, 0, calls, fin)
+}
+
+fn run_set_program<S: BuildHasher + Default + Send + Sync>(prefill: &[u32], threads: &[Vec<SOp>], pins: &[bool], universe: u32, policy: Policy) -> (Verdict, Vec<SCall>, Vec<bool>, usize, u64, Vec<String>) {
+    let n = threads.len();
+    let sched = Sched::new(n, policy, 100_000);
+    let calls: Mutex<Vec<SCall>> = Mutex::new(Vec::new());
+    let fails: Mutex<Vec<String>> = Mutex::new(Vec::new());
+    ledger_reset();
+    hooks::mem_start();
+    let set: HashSet<Key, S> = HashSet::with_hasher(S::default());
+    {
+        let g = set.guard();
+        for k in prefill {
+            set.insert(Key::new(*k, 0), &g);
+        }
+    }
+    let mut verdict = Verdict::Running;
+    std::thread::scope(|scope| {
+        for tid in 0..n {
+            let sched = sched.clone();
+            let set = &set;
+            let calls = &calls;
+            let fails = &fails;
+            let ops = &threads[tid];
+            let pin = pins[tid];
+            scope.spawn(move || {
+                hooks::clear_log();
+                hooks::set_mode(Mode::Sched(tid, sched.clone()));
+                let r = catch_unwind(AssertUnwindSafe(|| {
+                    if sched.enter(tid).is_err() {
+                        return;
+                    }
+                    for (i, op) in ops.iter().enumerate() {
+                        let inv = sched.inner.lock().unwrap().step;
+                        let inst = (tid as u32 + 1) * 1000 + i as u32;
+                        let out = if pin {
+                            let r = set.pin();
+                            match op {
+                                SOp::Insert(k) => r.insert(Key::new(*k, inst)),
+                                SOp::Remove(k) => r.remove(&Key::probe(*k)),
+                                SOp::Take(k) => r.take(&Key::probe(*k)).map(|x| assert!(x.alive())).is_some(),
+                                SOp::Contains(k) => r.contains(&Key::probe(*k)),
+                                SOp::Get(k) => r.get(&Key::probe(*k)).map(|x| assert!(x.alive())).is_some(),
+                            }
+                        } else {
+                            let g = set.guard();
+                            match op {
+                                SOp::Insert(k) => set.insert(Key::new(*k, inst), &g),
+                                SOp::Remove(k) => set.remove(&Key::probe(*k), &g),
+                                SOp::Take(k) => set.take(&Key::probe(*k), &g).map(|x| assert!(x.alive())).is_some(),
+                                SOp::Contains(k) => set.contains(&Key::probe(*k), &g),
+                                SOp::Get(k) => set.get(&Key::probe(*k), &g).map(|x| assert!(x.alive())).is_some(),
+                            }
+                        };
+                        let res = sched.inner.lock().unwrap().step;
+                        calls.lock().unwrap().push(SCall { tid, op: op.clone(), inv, res, out });
+                        sched.op_completed(tid);
+                    }
+                }));
+                hooks::set_mode(Mode::Off);
+                let _ = hooks::take_log();
+                if let Err(e) = r {
+                    if e.downcast_ref::<hooks::Abort>().is_none() {
+                        fails.lock().unwrap().push(format!("panic in thread {}", tid));
+                    }
+                }
+                sched.finish(tid);
+            });
+        }
+        verdict = sched.run();
+        if verdict == Verdict::Stuck {
+            println!("FOUND C11 a thread of a concurrent set program stopped making progress without reaching a yield point");
+            use std::io::Write;
+            let _ = std::io::stdout().flush();
+            std::process::exit(3);
+        }
+        sched.shutdown();
+    });
+    let steps = sched.inner.lock().unwrap().step;
+    let mut failures = fails.into_inner().unwrap();
+    let g = set.guard();
+    let fin: Vec<bool> = (0..universe).map(|k| set.contains(&Key::probe(k), &g)).collect();
+    let len = set.len();
+    drop(g);
+    drop(set);
+    let mem = hooks::mem_finish();
+    for v in mem.violations.iter().take(2) {
+        failures.push(format!("C03: {} at {}:{}", v.what, v.file, v.line));
+    }
+    let _ = ledger_take();
+    (verdict, calls.into_inner().unwrap(), fin, len, steps, failures)
+}
+
+/// `n` random programs x `scheds` schedules: 2-4 threads, 1-3 operations each on 1-3 elements,
+/// half of the programs racing inserts of one and the same element; through the guard API and
+/// through pinned references
+pub fn run_conc(seed: u64, n: u64, scheds: u64) -> SetConcResult {
+    let mut rng = SplitMix64(seed ^ 0x5E7C);
+    let mut out = SetConcResult { runs: 0, steps: 0, calls: 0, overlapping_same_key_inserts: 0, failures: vec![], samples: vec![] };
+    for pi in 0..n {
+        let universe = 1 + rng.below(3) as u32;
+        let nt = 2 + rng.below(3) as usize;
+        let hasher = [H_IDENTITY, H_ZERO, H_MIX, H_AHASH][rng.below(4) as usize];
+        let racing = pi % 2 == 0;
+        let prefill: Vec<u32> = (0..universe).filter(|_| rng.chance(1, 3)).collect();
+        let threads: Vec<Vec<SOp>> = (0..nt)
+            .map(|_| {
+                (0..1 + rng.below(3))
+                    .map(|j| {
+                        let k = if racing { 0 } else { rng.below(universe as u64) as u32 };
+                        if racing && j == 0 {
+                            return SOp::Insert(k);
+                        }
+                        match rng.below(8) {
+                            0..=2 => SOp::Insert(k),
+                            3 => SOp::Remove(k),
+                            4 => SOp::Take(k),
+                            5 => SOp::Get(k),
+                            _ => SOp::Contains(k),
+                        }
+                    })
+                    .collect()
+            })
+            .collect();
+        let prefill = if racing { vec![] } else { prefill };
+        let pins: Vec<bool> = (0..nt).map(|_| rng.chance(1, 2)).collect();
+        for s in 0..scheds {
+            let sseed = seed.wrapping_mul(7919) ^ (pi << 16) ^ s;
+            let stick = [0u64, 4, 8, 12][(s % 4) as usize];
+            let policy = Policy::Random(SplitMix64(sseed), stick);
+            let text = format!("hasher={} prefill={:?} pinned={:?} threads={:?} schedule seed={} stick={}", HASHER_NAMES[hasher as usize], prefill, pins, threads, sseed, stick);
+            println!("AT setconc {}", text);
+            let (verdict, calls, fin, len, steps, fails) = with_hasher!(hasher, S, { run_set_program::<S>(&prefill, &threads, &pins, universe, policy) });
+            out.runs += 1;
+            out.steps += steps;
+            out.calls += calls.len() as u64;
+            for f in fails {
+                out.failures.push(format!("{} || {}", f, text));
+            }
+            match verdict {
+                Verdict::Done => {}
+                Verdict::Deadlock => out.failures.push(format!("C11: deadlock in a concurrent set program || {}", text)),
+                Verdict::StepLimit => out.failures.push(format!("C11: step limit exceeded in a concurrent set program || {}", text)),
+                _ => {}
+            }
+            if verdict != Verdict::Done {
+                continue;
+            }
+            if len != fin.iter().filter(|x| **x).count() {
+                out.failures.push(format!("C05: len() {} differs from the number of elements found at quiescence {:?} || {}", len, fin, text));
+            }
+            for k in 0..universe {
+                let ck: Vec<SCall> = calls.iter().filter(|c| c.op.key() == k).cloned().collect();
+                let ins: Vec<&SCall> = ck.iter().filter(|c| matches!(c.op, SOp::Insert(_))).collect();
+                if ins.iter().enumerate().any(|(i, a)| ins.iter().skip(i + 1).any(|b| a.inv <= b.res && b.inv <= a.res)) {
+                    out.overlapping_same_key_inserts += 1;
+                }
+                if ck.len() <= 12 && !set_linearizable(prefill.contains(&k), &ck, fin[k as usize]) {
+                    out.failures.push(format!(
+                        "C01: history of set element {} is not linearizable (initially {}, finally {}): {} || {}",
+                        k,
+                        if prefill.contains(&k) { "present" } else { "absent" },
+                        if fin[k as usize] { "present" } else { "absent" },
+                        ck.iter().map(|c| format!("t{} {:?} -> {} [{}..{}]", c.tid, c.op, c.out, c.inv, c.res)).collect::<Vec<_>>().join(" | "),
+                        text
+                    ));
+                }
+            }
+            if out.samples.len() < 3 && racing && s == 0 {
+                out.samples.push(text);
+            }
+        }
+    }
+    out
+}
